@@ -161,7 +161,7 @@ def build_form(case, with_heur=True):
         # formulation obtained from a MIRP through its getter (with or without the heuristic run by the getter)
         m, results = MU.build_py(case["mirp"])
         if any(r[0] != "ok" for r in results):
-            raise core.Infra("MIRP spec of a formulation case does not build")
+            raise RuntimeError("a MIRP helper call raised on a well-formed MIRP: " + repr([r for r in results if r[0] != "ok"][:1]))
         heur = case.get("heur")
         try:
             np.random.seed(case.get("seed", 0))
@@ -178,7 +178,7 @@ def build_form(case, with_heur=True):
         except Exception as e:  # noqa
             o = {"arc": m.abrp, "path": m.pbrp, "seq": m.sbrp}[form]
             if o is None:
-                raise core.Infra("MIRP getter failed before creating the object")
+                raise RuntimeError("the MIRP getter raised before creating the formulation object: " + repr(e)[:160])
             return o, core.err_kind(e) + ":" + repr(e)[:120]
     if case.get("via") == "wrapper":
         spec = case["spec"]
